@@ -522,6 +522,24 @@ func init() {
 			cfg.MaxLeaves = r.Range(0, 2)
 			cfg.FairSuffix = r.Bool(0.6)
 			cfg.PSubmit = 0.3
+			if r2 := NewRNG(Mix(r.U64(), 0x6c667374)); r2.Bool(0.25) {
+				// a validator leaves early; the joiners and lagging nodes of the rest of
+				// the run reset themselves from anchors whose frames still carry a Root
+				// of the departed participant, and go on computing frames of their own
+				cfg.LeaveFirst = true
+				cfg.N0 = []int{4, 4, 5}[r2.Intn(3)]
+				cfg.Stores = make([]string, cfg.N0)
+				for i := range cfg.Stores {
+					cfg.Stores[i] = "inmem"
+				}
+				cfg.MaxLeaves = 1
+				cfg.MaxJoins = r2.Range(1, 3)
+				cfg.PJoin = 0.04
+				cfg.PReFF = 0.05
+				cfg.Steps += 120
+				cfg.FairSuffix = true
+				return cfg
+			}
 			if r.Bool(0.35) {
 				// persistent nodes that fast-forward although their database already
 				// holds history (lagging validators that reset themselves, joiners
